@@ -311,11 +311,12 @@ def c_sorted(searcher):
     return out
 
 
-def c_reference(ops, seed):
+def c_reference(ops, seed, pre=None):
     """Dump after every prefix, plain writer, one transaction per operation."""
     from whoosh.filedb.filestore import RamStorage
     random.seed(seed)
     ix = RamStorage().create_index(c_schema())
+    c_prestate(ix, pre)
     views = []
     for op in ops:
         w = ix.writer()
@@ -326,13 +327,23 @@ def c_reference(ops, seed):
     return views
 
 
-def c_buffered(ops, limit, storage, work, seed):
+def c_prestate(ix, pre):
+    """Start state: a list of transactions (each a list of ops) committed without merging."""
+    for tx in pre or ():
+        w = ix.writer()
+        for op in tx:
+            c_apply(w, op)
+        w.commit(merge=False)
+
+
+def c_buffered(ops, limit, storage, work, seed, commitargs=None, pre=None):
     """(views after every op through the BufferedWriter's own searcher, final dump after close)"""
     from whoosh import writing
     random.seed(seed + 1)
     st = open_storage(storage, work)
     ix = st.create_index(c_schema())
-    bw = writing.BufferedWriter(ix, period=None, limit=limit)
+    c_prestate(ix, pre)
+    bw = writing.BufferedWriter(ix, period=None, limit=limit, commitargs=commitargs)
     views = []
     try:
         for op in ops:
@@ -405,6 +416,108 @@ def task_c(t):
                                          [rv[0].get(k.split(".", 1)[1]) if k.startswith("dump.") else rv[1].get(k.split(".", 1)[1]) for k in d]))
             if i % 200 == 5:
                 acc.sample({"part": "C", "ops": ops, "reference_docs": [d[0] for d in ref[-1][0]["docs"]]})
+    finally:
+        shutil.rmtree(work, ignore_errors=True)
+    return acc.result()
+
+
+# -------------------------------------------------------------------------
+# Part E: a BufferedWriter that stays open across several flushes whose commits
+# merge (commitargs optimize / default / merge=False), from start states with
+# deleted documents on disk: document numbers move under the open writer
+
+E_PRE = {
+    "empty": [],
+    "deleted-first": [[["add", u"k0", "a"], ["add", u"k3", "b"]], [["del", u"k0"]]],
+    "two-segs-deleted": [[["add", u"k0", "a"]], [["add", u"k1", "a"], ["add", u"k3", "b"]], [["del", u"k0"], ["del", u"k3"]]],
+}
+E_COMMITARGS = {"optimize": {"optimize": True}, "nomerge": {"merge": False}, "default": {}}
+
+
+def e_op_lists(maxlen):
+    """every list of <= maxlen operations over {add, upd, del} x {k1, k2} (text variant alternates with the
+    position so an update is visible); adds only of keys that are not live in the model of the start state"""
+    alpha = [[k, key] for key in (u"k1", u"k2") for k in ("add", "upd", "del")]
+    for n in range(1, maxlen + 1):
+        for seq in itertools.product(alpha, repeat=n):
+            yield [[k, key, "ab"[i % 2]] if k != "del" else [k, key] for i, (k, key) in enumerate(seq)]
+
+
+def e_valid(ops, pre):
+    live = set()
+    for tx in pre:
+        for op in tx:
+            if op[0] == "del":
+                live.discard(op[1])
+            else:
+                live.add(op[1])
+    for op in ops:
+        if op[0] == "add":
+            if op[1] in live:
+                return False
+            live.add(op[1])
+        elif op[0] == "upd":
+            live.add(op[1])
+        else:
+            live.discard(op[1])
+    return True
+
+
+def task_e(t):
+    nsl, sl, maxlen, limits, canames, seed = t
+    acc = core.Acc()
+    work = core.fresh_dir("c18e")
+    try:
+        i = -1
+        for prename in sorted(E_PRE):
+            pre = E_PRE[prename]
+            for ops in e_op_lists(maxlen):
+                if not e_valid(ops, pre):
+                    continue
+                i += 1
+                if i % nsl != sl:
+                    continue
+                ref = c_reference(ops, seed, pre)
+                for limit in limits:
+                    if limit >= len(ops) + 1:
+                        continue        # never flushes before close(): Part C's territory
+                    for caname in canames:
+                        acc.count("evaluations")
+                        acc.count("partE_cases")
+                        case = {"part": "E", "ops": ops, "pre": prename, "limit": limit, "commitargs": caname, "seed": seed}
+                        try:
+                            views, final = c_buffered(ops, limit, "ram", work, seed, dict(E_COMMITARGS[caname]), pre)
+                        except Exception as e:
+                            tb = traceback.extract_tb(e.__traceback__)
+                            fr = [f for f in tb if "/whoosh/" in f.filename] or list(tb)
+                            where = "%s:%s" % (fr[-1].filename.split("/")[-1], fr[-1].name)
+                            acc.violation("E|%s|exc:%s@%s" % (caname, type(e).__name__, where), case,
+                                          "BufferedWriter(limit=%d, commitargs=%s) from start state %s raised %r at %s for ops %r"
+                                          % (limit, caname, prename, e, where, ops))
+                            continue
+                        if ref[-1][0]["docs"]:
+                            acc.count("distinct_nontrivial")
+                        bad = None
+                        for j, (rv, gv) in enumerate(zip(ref, views)):
+                            acc.count("partE_views_compared")
+                            d = _c_diff(rv, gv)
+                            if d:
+                                bad = ("view", j, d, rv, gv)
+                                break
+                        if bad is None:
+                            d = _c_diff(ref[-1], final)
+                            if d:
+                                bad = ("closed", len(ops) - 1, d, ref[-1], final)
+                        if bad:
+                            kind, j, d, rv, gv = bad
+                            acc.violation("E|%s|%s|differs:%s" % (caname, kind, "+".join(d)), case,
+                                          "start state %s, ops %r, BufferedWriter(limit=%d, commitargs=%s): after op %d the %s "
+                                          "differs in %s: got docs %r, reference docs %r"
+                                          % (prename, ops, limit, caname, j,
+                                             "writer's own searcher" if kind == "view" else "index after close()", d,
+                                             [x[0] for x in gv[0]["docs"]], [x[0] for x in rv[0]["docs"]]))
+                if i % 300 == 7:
+                    acc.sample({"part": "E", "pre": prename, "ops": ops})
     finally:
         shutil.rmtree(work, ignore_errors=True)
     return acc.result()
@@ -814,6 +927,8 @@ def task(t):
         return task_c(t[1])
     if t[0] == "D":
         return task_d(t[1])
+    if t[0] == "E":
+        return task_e(t[1])
     return task_b(t[1])
 
 
@@ -834,6 +949,9 @@ def run(ctx):
         tasks.append(("C", (16, sl, cmax, climits, ("ram", "file"), ctx.seed)))
     for sl in range(16):
         tasks.append(("D", (16, sl, 2 if ctx.tier == "quick" else 3, ctx.seed)))
+    emax, elimits, ecommit = (4, (1, 2), ("optimize", "default")) if ctx.tier == "quick" else (5, (1, 2, 3), ("optimize", "default", "nomerge"))
+    for sl in range(32):
+        tasks.append(("E", (32, sl, emax, elimits, ecommit, ctx.seed)))
     for cfg in b_configs(ctx.tier):
         tasks.append(("B", (cfg, bound, cap, ctx.seed)))
     ctx.rule = ("Part A: every operation list of length <= %d over {add, update, delete} x 2 keys x 2 texts (adds only of "
@@ -846,11 +964,15 @@ def run(ctx):
                 "vectors, field lengths, postings, sort orders) and after close() the reopened index must equal the "
                 "plain-writer reference; Part D: the same operation lists and schema (plus a dynamic *_dyn TEXT field with "
                 "vectors) through {plain on file, BufferedWriter, AsyncWriter, SerialMpWriter, MpWriter 2 procs / 3 procs "
-                "multisegment / 2 procs multisegment with optimizing commits, copy_to_ram}, final dump incl. per-field length statistics and vectors; Part B: AsyncWriter vs a "
+                "multisegment / 2 procs multisegment with optimizing commits, copy_to_ram}, final dump incl. per-field length statistics and vectors; Part E: "
+                "a BufferedWriter that stays open across flushes: every operation list of length <= %d over {add, update, delete} x 2 keys "
+                "x limit %s x commitargs {optimize, default; thorough also merge=False} x start states {empty, one segment with a deleted document, "
+                "two segments with deletions}, the writer's own searcher after every operation and the index after close() against "
+                "the plain-writer reference; Part B: AsyncWriter vs a "
                 "lock-holding plain writer and BufferedWriter shared by two adders, an observer and its timer, every "
                 "schedule with <= B preemptions (storage/lock/sleep points; line-level points inside BufferedWriter); "
                 "states/transitions count Part B scheduling decisions/steps; evaluations count all parts"
-                % (maxlen, cmax, "/".join(map(str, climits))))
+                % (maxlen, cmax, "/".join(map(str, climits)), emax, "/".join(map(str, elimits))))
     ctx.assumptions = ["reference = plain writer on RamStorage with one transaction per operation",
                        "BufferedWriter.searcher() must show every document whose add_document() had returned before "
                        "the call and nothing that had not been started by its end",
@@ -881,6 +1003,19 @@ def replay(case):
             return {"ok": False, "what": traceback.format_exc()[-600:]}
         ok = all(not _c_diff(a, b) for a, b in zip(ref, views)) and not _c_diff(ref[-1], final)
         return {"ok": ok, "what": "reference %r views %r final %r" % (ref, views, final)}
+    if case["part"] == "E":
+        work = core.fresh_dir("c18r")
+        pre = E_PRE[case["pre"]]
+        ref = c_reference(case["ops"], case["seed"], pre)
+        try:
+            views, final = c_buffered(case["ops"], case["limit"], "ram", work, case["seed"],
+                                      dict(E_COMMITARGS[case["commitargs"]]), pre)
+        except Exception:
+            return {"ok": False, "what": traceback.format_exc()[-600:]}
+        ok = all(not _c_diff(a, b) for a, b in zip(ref, views)) and not _c_diff(ref[-1], final)
+        return {"ok": ok, "what": "reference docs %r views %r final %r" % (
+            [[x[0] for x in v[0]["docs"]] for v in ref], [[x[0] for x in v[0]["docs"]] for v in views],
+            [x[0] for x in final[0]["docs"]])}
     if case["part"] == "A":
         work = core.fresh_dir("c18r")
         random.seed(case["seed"])
